@@ -6,7 +6,9 @@
 #include <djinterop/engine/v2/engine_library.hpp>
 #include <djinterop/exceptions.hpp>
 
+#include <algorithm>
 #include <filesystem>
+#include <functional>
 #include <fstream>
 
 using namespace cv;
@@ -452,7 +454,7 @@ static void prop_c18(const vf::Case& c, Ctx& ctx)
 // ---------------------------------------------------------------------------------------------- playlists and entities
 static std::string r(const v2::playlist_row& p)
 {
-    return "{" + hx(p.title) + "," + std::to_string(p.parent_list_id) + "," + r(p.is_persisted) + "," + r(p.last_edit_time) + "," + r(p.is_explicitly_exported) + "}";
+    return "{" + hx(p.title) + "," + std::to_string(p.parent_list_id) + "," + r(p.is_persisted) + ",next=" + std::to_string(p.next_list_id) + "," + r(p.last_edit_time) + "," + r(p.is_explicitly_exported) + "}";
 }
 static void prop_c18_lists(const vf::Case& c, Ctx& ctx)
 {
@@ -465,13 +467,29 @@ static void prop_c18_lists(const vf::Case& c, Ctx& ctx)
     std::string uuid = lib.information().get().uuid;
     std::map<int64_t, v2::playlist_row> lists;                 // id -> row as written
     std::map<int64_t, std::vector<int64_t>> entries;           // list id -> track ids in insertion order
+    std::map<int64_t, std::vector<int64_t>> order;             // parent id (0 = root) -> children in sibling order
+    auto unlink = [&](int64_t id) {
+        auto& v = order[lists[id].parent_list_id];
+        v.erase(std::remove(v.begin(), v.end(), id), v.end());
+    };
+    auto link = [&](int64_t id, int64_t parent, int64_t next) {
+        auto& v = order[parent];
+        auto it = next == 0 ? v.end() : std::find(v.begin(), v.end(), next);
+        v.insert(it, id);
+    };
+    std::function<bool(int64_t, int64_t)> is_under = [&](int64_t id, int64_t anc) {   // id == anc or id below anc
+        for (int64_t x = id; x != 0; x = lists[x].parent_list_id)
+            if (x == anc)
+                return true;
+        return false;
+    };
     std::string hist = "schema " + e::to_string(schema);
     int serial = 0;
     bool nt = false;
     for (size_t rec = 1; rec < c.size(); ++rec)
     {
         S s(c[rec]);
-        int op = static_cast<int>(s.below(9));
+        int op = static_cast<int>(s.below(11));
         if (lists.empty())
             op = 0;
         auto pick = [&]() { auto it = lists.begin(); std::advance(it, s.below(lists.size())); return it->first; };
@@ -484,10 +502,18 @@ static void prop_c18_lists(const vf::Case& c, Ctx& ctx)
                 // a persisted child persists its ancestors (database trigger): keep the model simple by writing persisted rows under persisted parents only
                 if (p.parent_list_id != 0 && p.is_persisted && !lists[p.parent_list_id].is_persisted)
                     p.is_persisted = false;
+                {   // position: at the end (next = none) or before one of the future siblings
+                    auto& sib = order[p.parent_list_id];
+                    size_t at = s.below(sib.size() + 2);
+                    p.next_list_id = at < sib.size() ? sib[at] : 0;
+                    if (p.next_list_id != 0)
+                        ctx.label("playlist:add-before-sibling");
+                }
                 int64_t id = pt.add(p);
-                hist += " | add_list=" + std::to_string(id);
+                hist += " | add_list=" + std::to_string(id) + "(parent " + std::to_string(p.parent_list_id) + ", before " + std::to_string(p.next_list_id) + ")";
                 VF_CHECK(!lists.count(id), hist << ": add() returned an existing id");
                 lists[id] = p;
+                link(id, p.parent_list_id, p.next_list_id);
                 ctx.label("playlist:add");
                 break;
             }
@@ -506,6 +532,50 @@ static void prop_c18_lists(const vf::Case& c, Ctx& ctx)
                 lists[id].last_edit_time = p.last_edit_time;
                 lists[id].is_explicitly_exported = p.is_explicitly_exported;
                 ctx.label("playlist:update");
+                break;
+            }
+            case 9:
+            case 10:
+            {   // update() that moves the row: another position among its siblings and/or another parent, other fields changing or not
+                int64_t id = pick();
+                auto got = pt.get(id);
+                VF_CHECK(got.has_value(), hist << ": get(" << id << ") finds nothing");
+                v2::playlist_row p = *got;
+                std::vector<int64_t> parents{0};
+                for (auto& kv : lists)
+                    if (!is_under(kv.first, id) && (!p.is_persisted || kv.second.is_persisted))
+                        parents.push_back(kv.first);
+                int64_t parent = s.coin() ? p.parent_list_id : parents[s.below(parents.size())];
+                std::vector<int64_t> sib;
+                for (auto x : order[parent])
+                    if (x != id)
+                        sib.push_back(x);
+                size_t at = s.below(sib.size() + 1);
+                p.parent_list_id = parent;
+                p.next_list_id = at < sib.size() ? sib[at] : 0;
+                bool moved = p.parent_list_id != got->parent_list_id || p.next_list_id != got->next_list_id;
+                unsigned what = static_cast<unsigned>(s.below(8));
+                if (what & 1)
+                    p.title = "M" + std::to_string(++serial);
+                if (what & 2)
+                    p.last_edit_time = g_time(s);
+                if (what & 4)
+                    p.is_explicitly_exported = !p.is_explicitly_exported;
+                hist += " | move_list(" + std::to_string(id) + " -> parent " + std::to_string(parent) + ", before " + std::to_string(p.next_list_id) + ", fields " + std::to_string(what) + ")";
+                pt.update(p);
+                unlink(id);
+                lists[id].title = p.title;
+                lists[id].last_edit_time = p.last_edit_time;
+                lists[id].is_explicitly_exported = p.is_explicitly_exported;
+                lists[id].parent_list_id = parent;
+                link(id, parent, p.next_list_id);
+                if (moved)
+                {
+                    nt = true;
+                    ctx.label(parent != got->parent_list_id ? "playlist:move-reparent" : "playlist:move-reorder");
+                    if (what)
+                        ctx.label("playlist:move+fields");
+                }
                 break;
             }
             case 3:
@@ -557,14 +627,23 @@ static void prop_c18_lists(const vf::Case& c, Ctx& ctx)
             {
                 int64_t id = pick();
                 hist += " | remove_list(" + std::to_string(id) + ")";
-                auto desc = pt.descendant_ids(id);
+                std::vector<int64_t> desc;                 // from the model, not from the library
+                for (auto& kv : lists)
+                    if (kv.first != id && is_under(kv.first, id))
+                        desc.push_back(kv.first);
+                auto lib_desc = pt.descendant_ids(id);
+                std::sort(lib_desc.begin(), lib_desc.end());
+                VF_CHECK(lib_desc == desc, hist << ": descendant_ids(" << id << ") differs from the written tree");
                 pt.remove(id);
+                unlink(id);
+                order.erase(id);
                 lists.erase(id);
                 entries.erase(id);
                 for (auto dsc : desc)
                 {
                     lists.erase(dsc);
                     entries.erase(dsc);
+                    order.erase(dsc);
                 }
                 VF_CHECK(!pt.get(id) && !pt.exists(id), hist << ": removed playlist is still found");
                 ctx.label("playlist:remove");
@@ -590,6 +669,22 @@ static void prop_c18_lists(const vf::Case& c, Ctx& ctx)
                 ctx.label("playlist:nonexistent");
                 break;
             }
+        }
+        for (auto& kv : order)
+        {   // sibling order as written: child_ids()/root_ids() and every row's next_list_id
+            auto ids = kv.first == 0 ? pt.root_ids() : pt.child_ids(kv.first);
+            std::vector<int64_t> got_order(ids.begin(), ids.end());
+            VF_CHECK(got_order == kv.second, hist << ": children of " << kv.first << " read back in a different order than written");
+            for (size_t i = 0; i < kv.second.size(); ++i)
+                lists[kv.second[i]].next_list_id = i + 1 < kv.second.size() ? kv.second[i + 1] : 0;
+        }
+        {
+            auto all = pt.all_ids();
+            std::sort(all.begin(), all.end());
+            std::vector<int64_t> want;
+            for (auto& kv : lists)
+                want.push_back(kv.first);
+            VF_CHECK(all == want, hist << ": all_ids() differs from the set of rows written and not removed");
         }
         for (auto& kv : lists)
         {
